@@ -245,7 +245,7 @@ fn string_family() -> ListSpace {
             files.push((vec![class(s, t), method(None, None, "p", t, Orig::None, "m"), class(t, s), Line::SourceFile(t), method(Some((1, 1)), None, "q", "", Orig::None, "m")], Term::Lf));
         }
     }
-    ListSpace { name: "string-length family".into(), note: "names of 1,2,127,128,129,255,256,16383,16384,16385 bytes (1-, 2- and 3-byte LEB128 prefixes) built from 1-, 2- and 3-byte UTF-8 characters; the same string in every role, and distinct equal-length strings".into(), files, wide: false }
+    ListSpace { name: "string-length family".into(), note: "names of 1,2,127,128,129,255,256,16383,16384,16385 bytes (1-, 2- and 3-byte LEB128 prefixes) built from 1-, 2- and 3-byte UTF-8 characters; the same string in every role, and distinct equal-length strings".into(), files, wide: false, chunk: Default::default() }
 }
 
 enum Item {
@@ -269,6 +269,7 @@ pub fn run(tier: Tier) -> i32 {
         Box::new(crate::families::unicode_family()),
         Box::new(crate::families::relation_family()),
         Box::new(crate::families::huge_family(0)),
+        Box::new(crate::families::giant_family()),
     ];
     let corpus = corpus_files();
     let mut items = Vec::new();
